@@ -68,7 +68,7 @@ inductive Ev
   | cap (b k e i : Nat) (vis : List (String × Value))   -- block capture `__ew{b}_{e}_{i}` of step k, with the `let` names it sees
   | chainStart (b k : Nat)
   | cb (b k : Nat) (id : Nat)         -- a user callback / atom inside chain (b, k) ran
-  | chainEnd (b k : Nat)
+  | chainEnd (b k : Nat) (v : Value)  -- chain (b, k) returned `v`
   | handlerDef
   | handlerCall (args : List Value)
   | joiner (k : Nat) (args : List Value)
@@ -174,7 +174,7 @@ def evalDefs (c : EvalCfg) (k : Nat) : List CapDef → Env → M Env
     evalDefs c k ds ((Var.ew d.b d.e d.i, v) :: env)
 
 def chainEvents (b k : Nat) (o : ChainOut) : List Ev :=
-  [.chainStart b k] ++ o.cbs.map (.cb b k) ++ (match o.res with | .ok _ => [.chainEnd b k] | _ => [])
+  [.chainStart b k] ++ o.cbs.map (.cb b k) ++ (match o.res with | .ok v => [.chainEnd b k v] | _ => [])
 
 /-- evaluate one operand of the join expression -/
 def evalElem (c : EvalCfg) (k : Nat) (env : Env) (e : Elem) : M Value :=
